@@ -35,4 +35,66 @@ theorem urlDecode_urlEncode (pm : Bool) (s : Bytes) : urlDecode (urlEncode pm s)
       unfold urlDecode
       simp only [hc, if_false, ih, Option.map_some]
 
+/-! ### the encoder never emits a delimiter of the target syntax -/
+
+def isDelim (c : UInt8) : Bool := c == 59 || c == 63 || c == 35 || c == 61 || c == 38
+
+theorem delim_facts : ∀ n : Fin 256, ∀ pm : Bool,
+    (needsEscape pm (UInt8.ofNat n.val) = false → isDelim (UInt8.ofNat n.val) = false) ∧
+    isDelim (hexUpper ((UInt8.ofNat n.val).toNat / 16)) = false ∧
+    isDelim (hexUpper ((UInt8.ofNat n.val).toNat % 16)) = false := by
+  decide +kernel
+
+theorem urlEncode_clean (pm : Bool) (s : Bytes) : ∀ c ∈ urlEncode pm s, isDelim c = false := by
+  induction s with
+  | nil => simp [urlEncode]
+  | cons x rest ih =>
+    have hx := delim_facts ⟨x.toNat, x.toNat_lt⟩ pm
+    simp only [UInt8.ofNat_toNat] at hx
+    unfold urlEncode
+    split
+    · intro c hc
+      simp only [List.mem_cons] at hc
+      rcases hc with rfl | rfl | rfl | hc
+      · decide
+      · exact hx.2.1
+      · exact hx.2.2
+      · exact ih c hc
+    · rename_i hn
+      intro c hc
+      simp only [List.mem_cons] at hc
+      rcases hc with rfl | hc
+      · exact hx.1 (by simpa using hn)
+      · exact ih c hc
+
+theorem findByte_none_of_clean (d : UInt8) (hd : isDelim d = true) (s : Bytes) (h : ∀ c ∈ s, isDelim c = false) :
+    findByte d s = none := by
+  unfold findByte
+  rw [List.findIdx?_eq_none_iff]
+  intro c hc
+  have := h c hc
+  cases hcd : (c == d) with
+  | false => rfl
+  | true =>
+    have : c = d := by simpa using hcd
+    subst this
+    simp_all
+
+/-- a target that consists of a path only survives `UrlPathToString` → `StringToUrlPath` -/
+theorem urlPath_roundtrip_path (path : Bytes) (hp : path.head? = some 47) :
+    parseUrlPath (urlPathToString ⟨path, [], [], []⟩) = some ⟨path, [], [], []⟩ := by
+  have hclean := urlEncode_clean true path
+  have hhead : (urlEncode true path).head? = some 47 := by
+    cases path with
+    | nil => simp at hp
+    | cons c rest =>
+      have : c = 47 := by simpa using hp
+      subst this
+      have : needsEscape true 47 = false := by decide
+      simp [urlEncode, this]
+  have h1 := findByte_none_of_clean 59 (by decide) _ hclean
+  have h2 := findByte_none_of_clean 63 (by decide) _ hclean
+  have h3 := findByte_none_of_clean 35 (by decide) _ hclean
+  simp [parseUrlPath, urlPathToString, hhead, h1, h2, h3, substr, urlDecode_urlEncode]
+
 end Tbox.C12
